@@ -5,12 +5,12 @@ Import ListNotations.
 
 (* ------------------------------------------------------------------ well-formedness hypotheses *)
 (* the index list hashed over is part of what "all shards" means on the read side; range shards are all readable *)
-Definition wf_group (typ : shtype) (g : group) : Prop :=
-  match typ with
-  | Hash => incl (eff_idx g) (g_alive g)
+Definition wf_group (c : cfg) (g : group) : Prop :=
+  match c_typ c with
+  | Hash => incl (eff_idx c g) (g_alive g)
   | Range => forall i, (i < length (g_shards g))%nat -> In i (g_alive g)
   end.
-Definition wf_cfg (c : cfg) : Prop := Forall (wf_group (c_typ c)) (c_groups c).
+Definition wf_cfg (c : cfg) : Prop := Forall (wf_group c) (c_groups c).
 (* what the line-protocol parser guarantees together with the duplicate check of the write path *)
 Definition wf_point (p : point) : Prop := NoDup (map fst (p_tags p)).
 
@@ -197,7 +197,7 @@ Variable hash : str -> N.
 Lemma tloop_hash_in : forall v c g, v_reset v = true -> c_typ c = Hash ->
   forall tss acc res ts, tloop hash v c g acc tss = Some res -> In ts tss ->
   snd (sel_keys (c_sk c) (sort_tags ts)) = true /\
-  forall s, shard_for (hash (after_name c (c_mst c ++ key_suffix (fst (sel_keys (c_sk c) (sort_tags ts)))))) g = Some s ->
+  forall s, shard_for c (hash (after_name c (c_mst c ++ key_suffix (fst (sel_keys (c_sk c) (sort_tags ts)))))) g = Some s ->
             In s res.
 Proof.
   intros v c g Hr Ht. induction tss as [|t tss IH]; intros acc res ts H Hin; [contradiction|].
@@ -228,19 +228,19 @@ Proof.
   unfold find_group. intros gs t g H. apply find_some in H as [H1 H2]. split; auto. apply in_rev; auto.
 Qed.
 
-Lemma shard_for_spec : forall h g s, shard_for h g = Some s ->
-  exists i, In i (eff_idx g) /\ nth_error (g_shards g) i = Some s.
+Lemma shard_for_spec : forall c h g s, shard_for c h g = Some s ->
+  exists i, In i (eff_idx c g) /\ nth_error (g_shards g) i = Some s.
 Proof.
-  unfold shard_for. intros h g s H. destruct (eff_idx g) as [|i0 idx] eqn:E; [discriminate|].
+  unfold shard_for. intros c h g s H. destruct (eff_idx c g) as [|i0 idx] eqn:E; [discriminate|].
   destruct (nth_error (i0 :: idx) (N.to_nat (h mod N.of_nat (length (i0 :: idx))))) as [i|] eqn:En; [|discriminate].
   exists i. split; auto. eapply nth_error_In; eauto.
 Qed.
 
-Lemma route_in_all_alive : forall c g p s, wf_group (c_typ c) g -> route_in hash c g p = Some s ->
+Lemma route_in_all_alive : forall c g p s, wf_group c g -> route_in hash c g p = Some s ->
   In s (g_shards g) /\ In s (all_alive g).
 Proof.
-  unfold route_in. intros c g p s Hwf H. destruct (wkey c p) as [ps|]; [|discriminate].
-  destruct (c_typ c); simpl in Hwf.
+  unfold route_in, wf_group. intros c g p s Hwf H. destruct (wkey c p) as [ps|]; [|discriminate].
+  destruct (c_typ c).
   - apply shard_for_spec in H as [i [Hi Hn]]. split; [eapply nth_error_In; eauto|].
     unfold all_alive. apply in_flat_map. exists i. split; [apply Hwf; auto|]. rewrite Hn. left; reflexivity.
   - unfold dest_shard in H. apply find_some in H as [Hs _]. split; auto.
@@ -307,7 +307,7 @@ Qed.
 Lemma target_group_sound : forall v c g cond p s,
   v_or v = true -> v_reset v = true ->
   (v_and v = true \/ match cond with Some e => parser_image e | None => True end) ->
-  wf_group (c_typ c) g -> wf_point p ->
+  wf_group c g -> wf_point p ->
   route_in hash c g p = Some s -> eval_cond c cond p = true ->
   In s (target_group hash v c g cond).
 Proof.
@@ -408,6 +408,91 @@ Proof.
   intros c1 c2 cond tmin tmax ps H1 H2 Hk Hps Hr.
   rewrite (answer_is_filter c1), (answer_is_filter c2); auto; try (intros p Hp; apply (Hr p Hp)).
   apply filter_ext. intros p. rewrite (eval_cond_schema c1 c2); auto.
+Qed.
+
+(* ------------------------------------------------------------------ batch caches *)
+Lemma wf_group_set_sk : forall c sk g, wf_group c g -> wf_group (set_sk c sk) g.
+Proof. intros c sk g H. exact H. Qed.
+
+(* measurement names identify measurements inside a batch *)
+Definition consistent (rows : list brow) : Prop :=
+  forall r1 r2, In r1 rows -> In r2 rows -> c_mst (m_cfg (r_m r1)) = c_mst (m_cfg (r_m r2)) -> m_vers (r_m r1) = m_vers (r_m r2).
+Definition no_drop (rows : list brow) : Prop := forall r, In r rows -> r_kind r = RRoute.
+(* the remembered shard key is the one in force for the remembered measurement and group *)
+Definition cache_inv (all : list brow) (st : bstate) : Prop :=
+  forall n g, b_mst st = Some n -> b_sg st = Some g ->
+  forall r, In r all -> c_mst (m_cfg (r_m r)) = n -> sk_scan (m_vers (r_m r)) (g_id g) = b_sk st.
+
+Lemma cache_inv_empty : forall all, cache_inv all b_empty.
+Proof. intros all n g H. discriminate. Qed.
+
+Lemma batch_step_transparent : forall all st r,
+  consistent all -> In r all -> r_kind r = RRoute -> cache_inv all st ->
+  batch_step hash true st r = batch_step hash false st r /\ cache_inv all (fst (batch_step hash false st r)).
+Proof.
+  intros all st r Hc Hin Hk Hinv. unfold batch_step. rewrite Hk.
+  destruct (pick_group (b_sg st) (c_groups (m_cfg (r_m r))) (p_time (r_p r))) as [g|] eqn:Ep.
+  - assert (Hsk : (if true && match b_sg st with Some g0 => g_contains g0 (p_time (r_p r)) | None => false end &&
+                      match b_mst st with Some n => str_eqb n (c_mst (m_cfg (r_m r))) | None => false end
+                   then b_sk st else sk_scan (m_vers (r_m r)) (g_id g)) = sk_scan (m_vers (r_m r)) (g_id g)).
+    { destruct (b_sg st) as [g0|] eqn:Eg; simpl; auto.
+      destruct (g_contains g0 (p_time (r_p r))) eqn:Ec; simpl; auto.
+      destruct (b_mst st) as [n|] eqn:Em; auto.
+      destruct (str_eqb n (c_mst (m_cfg (r_m r)))) eqn:En; auto.
+      apply str_eqb_eq in En. unfold pick_group in Ep. rewrite Ec in Ep. inversion Ep; subst g0.
+      symmetry. apply (Hinv n g Em Eg r Hin). auto. }
+    rewrite Hsk. simpl (false && _ && _). cbv iota. split; [reflexivity|].
+    unfold cache_inv.
+    destruct (sk_scan (m_vers (r_m r)) (g_id g)) as [k|] eqn:Es; cbn [fst b_mst b_sg b_sk];
+      intros n g' Hn Hg r' Hin' Hname; injection Hn as Hn; injection Hg as Hg; subst n g';
+      rewrite (Hc r' r Hin' Hin Hname); auto.
+  - split; [reflexivity|]. unfold cache_inv. cbn [fst b_mst b_sg b_sk]. intros n g' _ Hg. discriminate.
+Qed.
+
+(* with no row dropped between the measurement lookup and the routing step, remembering the shard key is invisible *)
+Theorem batch_cache_transparent_proof : forall all, consistent all -> no_drop all ->
+  forall rows st, incl rows all -> cache_inv all st -> batch_run hash true st rows = batch_run hash false st rows.
+Proof.
+  intros all Hc Hnd. induction rows as [|r rows IH]; intros st Hi Hinv; [reflexivity|].
+  assert (Hin : In r all) by (apply Hi; left; reflexivity).
+  destruct (batch_step_transparent all st r Hc Hin (Hnd r Hin) Hinv) as [Heq Hinv'].
+  simpl. rewrite Heq. f_equal. apply IH; auto. intros x Hx. apply Hi. right; exact Hx.
+Qed.
+
+(* without the shard-key cache a batch row is routed like a single row, in the remembered group or the catalogue's, by
+   the shard key in force for its own measurement and that group *)
+Theorem batch_uncached_is_route_proof : forall st r g s,
+  snd (batch_step hash false st r) = Some (g, s) ->
+  r_kind r = RRoute /\ pick_group (b_sg st) (c_groups (m_cfg (r_m r))) (p_time (r_p r)) = Some g /\
+  sk_scan (m_vers (r_m r)) (g_id g) <> None /\ route_in hash (cfg_at (r_m r) (g_id g)) g (r_p r) = Some s.
+Proof.
+  intros st r g s. unfold batch_step. destruct (r_kind r); simpl; [|discriminate|discriminate].
+  destruct (pick_group (b_sg st) (c_groups (m_cfg (r_m r))) (p_time (r_p r))) as [g0|] eqn:Ep; simpl; [|discriminate].
+  destruct (sk_scan (m_vers (r_m r)) (g_id g0)) as [k|] eqn:Es; simpl; [|discriminate].
+  destruct (route_in hash (set_sk (m_cfg (r_m r)) k) g0 (r_p r)) as [s0|] eqn:Er; [|discriminate].
+  intros H. inversion H; subst. repeat split; auto.
+  - rewrite Es; discriminate.
+  - unfold cfg_at. rewrite Es. exact Er.
+Qed.
+
+Theorem batch_prune_sound_proof : forall v st r g s cond,
+  v_or v = true -> v_reset v = true ->
+  (v_and v = true \/ match cond with Some e => parser_image e | None => True end) ->
+  wf_group (m_cfg (r_m r)) g -> wf_point (r_p r) ->
+  snd (batch_step hash false st r) = Some (g, s) -> eval_cond (m_cfg (r_m r)) cond (r_p r) = true ->
+  In s (target_group hash v (cfg_at (r_m r) (g_id g)) g cond).
+Proof.
+  intros v st r g s cond Hor Hres Hok Hwf Hwp H Hev.
+  apply batch_uncached_is_route_proof in H as [_ [_ [_ Hr]]].
+  eapply target_group_sound; eauto.
+Qed.
+
+Lemma target_m_in : forall v m tmin tmax cond g s,
+  In g (query_groups (m_cfg m) tmin tmax) -> In s (target_group hash v (cfg_at m (g_id g)) g cond) ->
+  In (g_id g, s_id s) (target_m hash v true m tmin tmax cond).
+Proof.
+  intros. unfold target_m. apply in_flat_map. exists g. split; auto.
+  apply (in_map (fun s0 => (g_id g, s_id s0))); auto.
 Qed.
 End Loop.
 
